@@ -203,6 +203,11 @@ func startModules() error {
 			rep = <-reports
 			if rep.err != nil {
 				rep.module.NewErrorMessage("start module", rep.err).Report()
+				// Wait for the modules that are still starting, so that none of them
+				// comes online unnoticed after the error was returned.
+				for reportCnt++; reportCnt < execCnt; reportCnt++ {
+					<-reports
+				}
 				return fmt.Errorf("modules: could not start module %s: %w", rep.module.Name, rep.err)
 			}
 			reportCnt++
